@@ -292,6 +292,14 @@ impl Bus {
             all.push((*seq, j));
         }
         all.sort_by_key(|x| x.0);
+        // service cookies mentioned by facts get the token the tap messages use for them
+        for (_, j) in all.iter_mut() {
+            if j["t"] == "fact" {
+                if let Some(c) = j["d"]["svcCookie"].as_str().and_then(|c| uuid::Uuid::parse_str(c).ok()) {
+                    j["d"]["svcTok"] = json!(namer.uuid(c));
+                }
+            }
+        }
         let lines = all.into_iter().map(|x| x.1).collect();
         let items = self.items.borrow().clone();
         (lines, items)
